@@ -45,7 +45,7 @@ def encode(c, r):
     if r.get("panic"):
         return None
     lits = []
-    for st in r["out"]["steps"]:
+    for st in (r["out"].get("steps") or []):
         op = st["op"]
         if op.get("op") == "reconcile" and op.get("ctrl") == "podtemplate" and not st.get("stopped") and st.get("pre") is not None:
             e = worldenc.find(st["pre"], "ExtendedDaemonSet", op["ns"], op["name"])
